@@ -1,4 +1,5 @@
 import Req.Lemmas.C03H2Conn
+import Req.C03.H2Pool
 /-!
 C03 — HTTP/2: a truncated, over-long or spliced body is never reported as success; a broken
 connection is not reused.
@@ -334,5 +335,48 @@ length it declares: the body is `noBody`. -/
 theorem h2_head_no_body (sid : Nat) (ops : List H2XOp) (r : H2Res)
     (hres : ((H2X.init sid true).run ops).2.st.res = some r) : r.body = .noBody := by
   exact head_no_body_run ops (H2X.init sid true) [] [] (Inv.init true) rfl (by simp [H2X.init, H2Stream.init]) r hres
+
+/-! ### the connection pool -/
+
+/-- **broken_conn_not_reused_h2.** Once the read loop ended (transport EOF at a frame boundary or
+inside a frame, a connection error) or a GOAWAY was processed — with any code, any
+last-stream-id — the connection takes no new request and is out of the pool, whatever else
+happened before or happens after, in any order. -/
+theorem broken_conn_not_reused_h2 (sid : Nat) (isHead : Bool) (ops : List H2XOp)
+    (hf : ∃ e ∈ evsOf ops, H2XEv.fatal e = true) :
+    ((H2X.init sid isHead).run ops).2.canTakeNewRequest = false ∧
+    ((H2X.init sid isHead).run ops).2.inPool = false :=
+  fatal_run (H2X.init sid isHead) ops hf (by simp [H2X.init, H2Stream.init])
+
+/-- …and `GetClientConn` never hands out a connection that cannot take a new request: it dials. -/
+theorem pool_hands_out_usable (p : H2Pool) : p.getClientConn.2.canTake = true := by
+  unfold H2Pool.getClientConn
+  cases h : p.conns.find? (·.canTake) with
+  | none => rfl
+  | some c => simpa using List.find?_some h
+
+/-- After a connection-fatal event the next `GetClientConn` dials a new connection. -/
+theorem broken_conn_redials_h2 (sid : Nat) (isHead : Bool) (ops : List H2XOp)
+    (hf : ∃ e ∈ evsOf ops, H2XEv.fatal e = true) :
+    h2DialsAfterNext ((H2X.init sid isHead).run ops).2 = 2 := by
+  obtain ⟨h1, h2⟩ := broken_conn_not_reused_h2 sid isHead ops hf
+  simp [h2DialsAfterNext, h1, h2, H2Pool.getClientConn, H2Pool.empty, H2Pool.setCanTake, H2Pool.markDead]
+
+/-- **h2_stream_failure_keeps_conn.** A failure of the stream alone — RST_STREAM with any code but
+PROTOCOL_ERROR, a short or over-long body, the caller closing the body — leaves the connection in
+the pool and able to take the next request (as long as the read loop did not fail): no new dial. -/
+theorem h2_stream_failure_keeps_conn (sid : Nat) (isHead : Bool) (ops : List H2XOp)
+    (hs : ∀ e ∈ evsOf ops, H2XEv.streamLevel e = true)
+    (hfin : ((H2X.init sid isHead).run ops).2.st.connDead = false) :
+    h2DialsAfterNext ((H2X.init sid isHead).run ops).2 = 1 := by
+  obtain ⟨h1, h2⟩ := stream_level_run (H2X.init sid isHead) ops hs (by rfl) (by rfl) hfin
+  simp [h2DialsAfterNext, h1, h2, H2Pool.getClientConn, H2Pool.empty, H2Pool.setCanTake]
+
+example : h2DialsAfterNext ((H2X.init 1 false).run [.ev (.headers [([58, 115, 116, 97, 116, 117, 115], [50, 48, 48])] false),
+    .ev (.rst 8)]).2 = 1 := by decide
+example : h2DialsAfterNext ((H2X.init 1 false).run [.ev (.headers [([58, 115, 116, 97, 116, 117, 115], [50, 48, 48])] false),
+    .ev (.rst 1)]).2 = 2 := by decide
+example : h2DialsAfterNext ((H2X.init 1 false).run [.ev (.goAway 1 0),
+    .ev (.headers [([58, 115, 116, 97, 116, 117, 115], [50, 48, 48])] true)]).2 = 2 := by decide
 
 end Req.Props.C03H2
